@@ -93,6 +93,7 @@ impl CanonicalRequest {
 //@ params parts body options
 //@ hideutf8
 //@ props C08 C01 C09 C10 C11 C12 C13 C15 C17
+//@ consumers C02 C19
 //@ ret r
 //@ replace 1 `content_type.content_type == APPLICATION_X_WWW_FORM_URLENCODED` => `string_eq_str(&content_type.content_type, APPLICATION_X_WWW_FORM_URLENCODED)`
 //   (the body's parameter map is a temporary of the for-loop header; it is let-bound so that the proof can name it, and its by-value
@@ -391,6 +392,7 @@ use super::*;
 //@ params request region service get_signing_key server_timestamp required_headers options
 //@ hideutf8
 //@ props C08 C01 C02 C04 C13 C14 C15 C17
+//@ consumers C03 C05 C09 C10 C11 C12 C16 C19
 //@ ret r
 //   (this Verus version gives no specification to the error conversion hidden in `?` when the error types differ; the three converting `?`
 //    are desugared to what they mean: `match e { Ok(v) => v, Err(e) => return Err(From::from(e)) }`)
